@@ -55,6 +55,52 @@ class C13(Property):
                         s.tick(dt)
             s.add("S.1")
             out.append(s.line())
+        # "... or P disconnects": a peer that taught addresses falls silent and is timed out (peer timeout far below the
+        # switch timeout), or is removed by the handshake housekeeping; frames for its addresses must be flooded again
+        for _ in range(60 if thorough else 12):
+            mode = rng.choice(["tap-switch", "tap-normal"])
+            pt = rng.choice([10, 20, 40])
+            s = nu.Scenario()
+            for i in (1, 2, 3):
+                s.node(i, mode=mode, pt=pt, st=3600)
+            s.add("C.2.1", "A", "C.3.1", "A")
+            s.tick(3)
+            vlan = rng.choice(VLANS)
+            macs = [nu.mac(3), nu.mac(43)][:rng.choice([1, 2])]
+            for m in macs:
+                s.add("P.3.%s" % nu.eth_frame(b"\xff" * 6, m, vlan), "A", "O.1", "O.2", "O.3")
+            s.add("M.3.1")
+            for _ in range(pt + 5):                       # node 3 is silent: no housekeeping, nothing gets out
+                s.t += 1
+                s.add("T.%d" % s.t, "H.1", "H.2", "A")
+            s.add("S.1")
+            for m in macs:
+                s.add("P.1.%s" % nu.eth_frame(m, nu.mac(1), vlan), "A", "O.1", "O.2", "O.3")
+            out.append(s.line())
+        # hub and router mode with the IP dissector and claims: packets whose source address lies in ANOTHER node's
+        # claim (forwarded or spoofed) must not teach anybody anything - replies still follow the claims
+        for _ in range(200 if thorough else 40):
+            n = rng.choice([3, 3, 4])
+            mode = rng.choice(["tun-router", "tun-router", "tun-hub"])
+            s = nu.Scenario()
+            for i in range(1, n + 1):
+                s.node(i, mode=mode, st=st, claims=["%s/24" % bytes([10, 0, i, 0]).hex()])
+            for i in range(2, n + 1):
+                s.add("C.%d.1" % i, "A")
+            s.tick(3)
+            for _ in range(rng.choice([6, 14, 30])):
+                if rng.random() < 0.85:
+                    i = rng.randrange(1, n + 1)
+                    srcnet = rng.choice([i, i] + list(range(1, n + 1)) + [9])
+                    dstnet = rng.choice(list(range(1, n + 1)) + [9])
+                    f = nu.ipv4_packet(bytes([10, 0, srcnet, rng.randrange(1, 4)]), bytes([10, 0, dstnet, rng.randrange(1, 4)]), bytes([rng.randrange(256)]))
+                    s.add("P.%d.%s" % (i, f), "A")
+                    for k in range(1, n + 1):
+                        s.add("O.%d" % k)
+                else:
+                    s.tick(rng.choice([1, 1, st]))
+            s.add("S.1")
+            out.append(s.line())
         return out
 
     def model_line(self, line, impl_out):
@@ -78,6 +124,10 @@ class C13(Property):
         n = len(nodes)
         mode = nodes[0].split(".")[2]
         st = int(nodes[0].split(".")[5])
+        if mode.startswith("tun"):
+            return self.oracle_claims(ops, outs, n, mode)
+        if "M.3.1" in ops:
+            return self.oracle_disconnect(ops, outs)
         learning = mode in ("tap-switch", "tap-normal")
         flood = mode in ("tap-switch", "tap-normal", "tap-hub")
         now = 1
@@ -121,6 +171,49 @@ class C13(Property):
                     cnt = 0 if w == "w-" else len(w[1:].split(","))
                     if cnt != (1 if k in got else 0):
                         return "node %d wrote %d frames for a frame sent to %s" % (k, cnt, got)
+                i += 2 + n
+                continue
+            i += 1
+        return None
+
+    def oracle_disconnect(self, ops, outs):
+        if any(r.startswith("panic") for r in outs):
+            return "panic"
+        k = ops.index("S.1")
+        d = nu.parse_dump(outs[k])
+        if any(p[0] == "3" for p in d["peers_l"]):
+            return "silent peer 3 was not removed after its timeout"
+        for o, r in list(zip(ops, outs))[k:]:
+            if o.startswith("P.1."):
+                got = sorted(x for x, _ in nu.emissions(r))
+                if got != [2]:
+                    return ("frame for an address learned from peer 3, read at node 1 after peer 3 disconnected, went to %s; "
+                            "it must be flooded to the remaining peers [2]") % got
+        return None
+
+    def oracle_claims(self, ops, outs, n, mode):
+        """hub / router with claims 10.0.i.0/24 at node i: next hops follow the claims, whatever was received before"""
+        i = 0
+        while i < len(ops):
+            o, r = ops[i], outs[i]
+            if r.startswith("panic"):
+                return "panic at op %d" % i
+            if o.startswith("P."):
+                src = int(o.split(".")[1])
+                pkt = bytes.fromhex(o.split(".")[2])
+                dst = pkt[16:20]
+                peers = [x for x in range(1, n + 1) if x != src]
+                j = dst[2] if dst[0] == 10 and dst[1] == 0 else None
+                if j in peers:
+                    want = [j]
+                elif mode == "tun-hub":
+                    want = peers
+                else:
+                    want = []
+                got = sorted(d for d, _ in nu.emissions(r))
+                if got != sorted(want):
+                    return ("%s mode: packet for %s read at node %d went to %s; the claims say %s (nothing may be learned from traffic)"
+                            % (mode, ".".join(str(b) for b in dst), src, got, sorted(want)))
                 i += 2 + n
                 continue
             i += 1
